@@ -872,7 +872,7 @@ func runOneClose(c rlCloseCase, o *rlOut) {
 			}
 		}
 		e.Router.mu.Unlock()
-		_, _, kinds := quic.VerifRouting(tr, ids)
+		_, _, kinds := quic.VerifRLRouting(tr, ids)
 		rc := routingCode(kinds)
 		time.Sleep(2 * rtt)
 		synctest.Wait()
@@ -925,7 +925,7 @@ func runOneClose(c rlCloseCase, o *rlOut) {
 		// monitor: after the closing period (3 PTO) the routing entries are gone
 		time.Sleep(3*time.Duration(pre.PTONoAckDelay) + time.Millisecond)
 		synctest.Wait()
-		_, _, kinds = quic.VerifRouting(tr, ids)
+		_, _, kinds = quic.VerifRLRouting(tr, ids)
 		if x := routingCode(kinds); x != 0 {
 			o.fail("runloop/routing-released", fmt.Sprintf("routing entries %v remain after 3 PTO: %s", kinds, c.String()))
 		}
